@@ -24,10 +24,11 @@ one() {
     res="$res$(grep '^VIOLATION' $out/$id.$p.log | head -2 | sed 's/.*replays\///' | cut -c1-100 | tr '\n' ';')"
   done
   git -C /repo worktree remove --force $wt >/dev/null 2>&1; rm -rf $wt
+  rm -rf $out/$id/smt $out/$id/evidence   # the SMT files of one run are ~0.2 GB: keep only logs and replay files
   if [ -n "$res" ]; then echo "$id detected: $res"; else echo "$id MISSED"; fi
 }
 n=0
-list="$@"; [ -z "$list" ] && list=$(ls seeded)
+list="$@"; [ -z "$list" ] && list=$(ls -d seeded/*/ | xargs -n1 basename)
 for id in $list; do
   one $id > $out/$id.result &
   n=$((n+1))
